@@ -124,6 +124,40 @@ Section Float.
   Proof.
     unfold linear_to_srgba8__v4f. rewrite gen_linear_to_srgba, gen_pack. reflexivity.
   Qed.
+  (* ---- the double overloads / instantiations (binary64 rounding rnd64; same generic text) ---- *)
+  Lemma lit_d1 : rnd64 (IZR 1 / IZR 1) = 1.
+  Proof. rewrite rnd_frac_1 by discriminate. exact rnd64_1. Qed.
+
+  Lemma gen_rcp_d x : rcp__d I x = rcp_g rnd64 x.
+  Proof. unfold rcp__d, rcp_g. cbn. rewrite lit_d1. reflexivity. Qed.
+
+  Lemma gen_rsqrt_d x : rsqrt__d I x = rsqrt_g rnd64 x.
+  Proof. unfold rsqrt__d, rsqrt_g. cbn. rewrite lit_d1. reflexivity. Qed.
+
+  (* rcp_safe_t<double>: threshold and replacement are numeric_limits<double>::min(), the sign test is x >= 0 *)
+  Lemma gen_rcp_safe_d x : rcp_safe__d I x = rcp_safe_g rnd64 DBL_MIN x.
+  Proof.
+    unfold rcp_safe__d, rcp_safe_t__d, rcp_safe_g, rcp_safe_arg_g. rewrite gen_rcp_d. cbn.
+    rewrite lit_f0, rnd64_0. reflexivity.
+  Qed.
+
+  Lemma gen_rcp_safe_f_generic x : rcp_safe__f I x = rcp_safe_g rnd FLT_MIN x.
+  Proof. rewrite gen_rcp_safe. reflexivity. Qed.
+
+  Lemma gen_clamp_d x lo hi : clamp__d_d_d I x lo hi = clampR x lo hi.
+  Proof. reflexivity. Qed.
+
+  Lemma gen_madd_d a b c : madd__d_d_d I a b c = madd_g rnd64 a b c.
+  Proof. reflexivity. Qed.
+
+  Lemma gen_deg2rad_d x :
+    deg2rad__d I x = rnd64 (x * rnd64 (IZR 3490658503988659 / IZR 200000000000000000)).
+  Proof. reflexivity. Qed.
+
+  (* lerp<double>: the factor is a float; 1.f - factor is rounded in binary32, then widened *)
+  Lemma gen_lerp_d f a b :
+    lerp__f_d_d I f a b = rnd64 (rnd64 (rnd64 (rnd (1 - f)) * a) + rnd64 (rnd64 f * b)).
+  Proof. unfold lerp__f_d_d. cbn. rewrite lit_f1. reflexivity. Qed.
 End Float.
 
 (* the bits python computed for float(double(literal)) are the twin's constant, whose real value is
